@@ -193,9 +193,20 @@ Not decided: the folding of FROM set expressions (unions/intersections) and seri
             if !(scrut == "string_type" || scrut.ends_with(".ty")) {
                 continue;
             }
-            // a match whose first arm is an or-pattern of CharacterStringType paths and which has a wildcard arm
-            let first = tok(&mt.arms[0].pat);
-            if !(first.contains("CharacterStringType::") && first.contains('|') && mt.arms.iter().any(|a| tok(&a.pat) == "_")) {
+            // a two-way decision over the string type: an or-pattern of CharacterStringType paths and a wildcard arm, one side
+            // of which yields "no alphabet / no annotation" — whichever side is spelled out (allow-list or deny-list)
+            let has_list = mt.arms.iter().any(|a| { let p = tok(&a.pat); p.contains("CharacterStringType::") && p.contains('|') });
+            if !(has_list && mt.arms.iter().any(|a| tok(&a.pat) == "_")) {
+                continue;
+            }
+            let rejects = |a: &syn::Arm| -> bool {
+                let b = tok(&a.body);
+                let b = b.trim_start_matches('{').trim_end_matches('}').trim_end_matches(';');
+                matches!(b, "return Ok(None)" | "Ok(None)" | "None" | "return None" | "TokenStream::new()" | "false" | "quote!()")
+            };
+            let n_reject = mt.arms.iter().filter(|a| rejects(a)).count();
+            if n_reject == 0 || n_reject == mt.arms.len() {
+                ctx.fail_closed("C15.km", &format!("{}: cannot tell which arm of the string-type decision means `no alphabet` (arm bodies: {:?})", f.name, mt.arms.iter().map(|a| tok(&a.body)).collect::<Vec<_>>()));
                 continue;
             }
             km_sites += 1;
@@ -204,7 +215,7 @@ Not decided: the folding of FROM set expressions (unions/intersections) and seri
                 ctx.oblige("C15.km", &format!("{}:{}", f.name, v), true);
                 match ev.select_arm(&mt, &Val::ctor(v), &Env::new()) {
                     Ok((i, _)) => {
-                        let in_list = i == 0;
+                        let in_list = !rejects(&mt.arms[i]);
                         let want = km.contains(v);
                         if in_list != want {
                             ctx.violate("C15.km", &format!("{}:{}", f.name, v), &f.file, span_line(&mt),
